@@ -3,12 +3,13 @@
    (contents a State may be opened from without spending operations on building them) and the history variable
    `hist` used to export behaviours for the model -> implementation replay (DESIGN 3.3).  `hist` is excluded from
    the fingerprint with VIEW, so TLC keeps ONE representative history per distinct abstract state.
-   hist[i] = <<op, x, y, z>> \o FlatView-after-the-op (\o FlatContent(root) for OpenBase and Stage); all integers. *)
+   hist[i] = <<op, x, y, z>> \o FlatView-after-the-op (\o FlatContent(root) for OpenBase and Stage) \o FlatSide
+   (statedb side journal after the op: refund, suicide flag per address, number of logs, <<kind, id>> pairs); all integers. *)
 EXTENDS StateJournal, Json
 
 CONSTANTS NA, NK, Export
 VARIABLE hist
-mcvars == <<base, stack, shadow, staged, committed, nops, hist>>
+mcvars == <<base, stack, shadow, staged, committed, side, nops, hist>>
 View == svars
 
 RECURSIVE ConcatTo(_, _)
@@ -21,20 +22,26 @@ FlatContent(c) ==
   ConcatTo([a \in 1..NA |-> LET x == AccOf(c, a)
                             IN <<x.bal, x.en, x.bt, x.ms, x.cd, IF x.sw THEN 1 ELSE 0>> \o [k \in 1..NK |-> Lookup(x.st, k, 0)]], NA)
 
+RECURSIVE FlatPairs(_, _)
+FlatPairs(q, n) == IF n = 0 THEN <<>> ELSE FlatPairs(q, n - 1) \o q[n]
+FlatSide(sd) ==
+  LET lg == SideLogs(sd.stk) IN
+  <<SideRefund(sd.stk)>> \o [a \in 1..NA |-> IF a \in SideSui(sd.stk) THEN 1 ELSE 0] \o <<Len(lg)>> \o FlatPairs(lg, Len(lg))
+
 MCEnV == {<<0, 1>>, <<1, 1>>}        \* (energy, blockTime): a block time alone does not make an account non-empty
 
 \* bases: address 1 absent / plain / with storage / with explicit empty storage; address 2 absent or with storage
 Acc(bal, sw, st) == [bal |-> bal, en |-> 0, bt |-> 0, ms |-> 0, cd |-> 0, sw |-> sw, st |-> st]
 A1Variants == {AbsentAcc, Acc(1, FALSE, EmptyFn), Acc(1, TRUE, (1 :> 1)), Acc(1, TRUE, EmptyFn), Acc(1, TRUE, (1 :> 1) @@ (2 :> 2))}
-A2Variants == {AbsentAcc, Acc(1, TRUE, (1 :> 2))}
+A2Variants == IF 2 \in Addr THEN {AbsentAcc, Acc(1, TRUE, (1 :> 2))} ELSE {AbsentAcc}     \* the narrow configs never touch address 2
 InitBases == {Canon((1 :> x) @@ (2 :> y)) : x \in A1Variants, y \in A2Variants}
 
 MCInit == /\ base \in InitBases /\ stack = <<EmptyLevel>> /\ shadow = <<base>>
-          /\ staged = NoStage /\ committed = <<>> /\ nops = 0
-          /\ hist = << <<0, 0, 0, 0>> \o FlatViewOf(base, <<EmptyLevel>>) \o FlatContent(base) >>
+          /\ staged = NoStage /\ committed = <<>> /\ side = SideInit /\ nops = 0
+          /\ hist = << <<0, 0, 0, 0>> \o FlatViewOf(base, <<EmptyLevel>>) \o FlatContent(base) \o FlatSide(SideInit) >>
 
-Log(op, x, y, z) == hist' = Append(hist, <<op, x, y, z>> \o FlatViewOf(base', stack'))
-LogStage == hist' = Append(hist, <<10, 0, 0, 0>> \o FlatViewOf(base', stack') \o FlatContent(staged'.c))
+Log(op, x, y, z) == hist' = Append(hist, <<op, x, y, z>> \o FlatViewOf(base', stack') \o FlatSide(side'))
+LogStage == hist' = Append(hist, <<10, 0, 0, 0>> \o FlatViewOf(base', stack') \o FlatContent(staged'.c) \o FlatSide(side'))
 
 MCNext ==
   /\ nops < MaxOps
@@ -45,6 +52,9 @@ MCNext ==
           \/ \E c \in CdV : SetCode(a, c) /\ Log(4, a, c, 0)
           \/ \E k \in Key, v \in StV : SetStorage(a, k, v) /\ Log(5, a, k, v)
           \/ Delete(a) /\ Log(7, a, 0, 0)
+     \/ \E a \in SuiV : Suicide(a) /\ Log(16, a, IF Exists(base, stack, a) THEN 1 ELSE 0, 0)
+     \/ \E id \in LogV : (AddLog(1, id) /\ Log(13, id, 0, 0)) \/ (AddLog(2, id) /\ Log(14, id, 0, 0))
+     \/ \E g \in RefV : AddRefund(g) /\ Log(15, g, 0, 0)
      \/ (Len(stack) < MaxDepth /\ NewCheckpoint /\ Log(8, Len(stack), 0, 0))
      \/ \E r \in 1..(Len(stack) - 1) : RevertTo(r) /\ Log(9, r, 0, 0)
      \/ Stage /\ LogStage
